@@ -172,7 +172,11 @@ class C01(GenCheck):
             elif x[0] not in ("v", "r"):
                 for t in x[1:]:
                     yield from consts(t)
-        return all(isinstance(c, int) and -(1 << 70) < c < (1 << 70) for c in consts(f))
+        def unfolded(x):
+            if x[0] in ("c", "v", "r"):
+                return False
+            return all(t[0] == "c" for t in x[1:]) or any(unfolded(t) for t in x[1:])
+        return not unfolded(f) and all(isinstance(c, int) and -(1 << 70) < c < (1 << 70) for c in consts(f))
 
     def prepare(self, cases):
         return self.execute(cases)
